@@ -7,7 +7,7 @@
    C09: record numbers strictly increase per epoch, never wrap, (key, nonce) pairs are unique.
    The AEAD idealisation is a Section hypothesis and appears as a premise of the closed theorems. *)
 From DtlsV Require Import Lib.Bytes Rec.Window Rec.WindowSound Rec.Rec13.
-From DtlsV Require Rec.RecvSound.
+From DtlsV Require Rec.RecvSound Rec.SendSound.
 From Coq Require Import ZifyN ZifyNat ZifyBool Permutation.
 Open Scope N_scope.
 
@@ -274,6 +274,80 @@ Proof.
     rewrite firstn_length in Hb. replace (Nat.min 2 (length r1)) with 2%nat in Hb by lia. exact Hb.
   - pose proof (be_dec_bound (firstn 1 r1) (bytes_ok_firstn 1 r1 Hok1)) as Hb.
     rewrite firstn_length in Hb. replace (Nat.min 1 (length r1)) with 1%nat in Hb by lia. exact Hb.
+Qed.
+
+(* ------------------------------------------------------------------ unified header: marshal then parse; inner plaintext *)
+
+
+(* headers Marshal writes and Unmarshal (with a connection id of length n) reads back *)
+Definition uh_wf (n : nat) (h : uhdr) : Prop :=
+  u_elow h < 4 /\ (u_cid h = [] \/ (length (u_cid h) = n /\ (0 < n)%nat)) /\ uh_seq_ok h /\
+  (if u_lbit h then u_len h < 65536 else u_len h = 0).
+
+Lemma flags_bits (c s l : bool) (e : N) : e < 4 ->
+  let ct := 32 + (if c then 0 else 16) + (if s then 8 else 0) + (if l then 4 else 0) + e mod 4 in
+  is_ct13 ct = true /\ bit_c ct = negb c /\ bit_s ct = s /\ bit_l ct = l /\ ct mod 4 = e.
+Proof.
+  intro He. cbn zeta. unfold is_ct13, bit_c, bit_s, bit_l. destruct c, s, l; cbn [negb];
+    repeat split; lia.
+Qed.
+
+Lemma split_app (a b : bytes) :
+  firstn (length a) (a ++ b) = a /\ skipn (length a) (a ++ b) = b /\ (length (a ++ b) <? length a)%nat = false.
+Proof.
+  split; [|split].
+  - rewrite firstn_app, firstn_all, Nat.sub_diag. cbn. apply app_nil_r.
+  - rewrite skipn_app, skipn_all, Nat.sub_diag. reflexivity.
+  - rewrite app_length. lia.
+Qed.
+
+Lemma uh_marshal_unmarshal n h rest : uh_wf n h ->
+  uh_unmarshal n (uh_marshal h ++ rest) = Some (h, rest).
+Proof.
+  intros (He & Hc & Hs & Hl). destruct h as [cid sq sb ln lb el].
+  unfold uh_seq_ok in Hs. cbn [u_cid u_seq u_sbit u_len u_lbit u_elow] in *.
+  unfold uh_marshal, uh_flags. cbn [u_cid u_seq u_sbit u_len u_lbit u_elow app].
+  destruct (flags_bits (is_nil cid) sb lb el He) as (H1 & H2 & H3 & H4 & H5). cbn zeta in *.
+  unfold uh_unmarshal. rewrite H1. cbn [negb]. rewrite H2, H3, H4, H5.
+  assert (Hn : (if negb (is_nil cid) then n else 0%nat) = length cid).
+  { destruct Hc as [-> | [Hc1 Hc2]]; [reflexivity|]. destruct cid; [cbn in Hc1; lia|cbn [is_nil negb]; lia]. }
+  rewrite Hn. rewrite <- !app_assoc.
+  destruct (split_app cid ((if sb then be_enc 2 sq else be_enc 1 sq) ++ (if lb then be_enc 2 ln else []) ++ rest)) as (F1 & S1 & L1).
+  rewrite F1, S1, L1. clear F1 S1 L1.
+  destruct sb.
+  - destruct (split_app (be_enc 2 sq) ((if lb then be_enc 2 ln else []) ++ rest)) as (F2 & S2 & L2).
+    rewrite be_enc_length in F2, S2, L2. rewrite F2, S2, L2. clear F2 S2 L2.
+    rewrite be_dec_enc by (change (256 ^ N.of_nat 2) with 65536; exact Hs).
+    destruct lb.
+    + destruct (split_app (be_enc 2 ln) rest) as (F3 & S3 & L3).
+      rewrite be_enc_length in F3, S3, L3. rewrite F3, S3, L3.
+      rewrite be_dec_enc by (change (256 ^ N.of_nat 2) with 65536; exact Hl). reflexivity.
+    + cbn. subst ln. reflexivity.
+  - destruct (split_app (be_enc 1 sq) ((if lb then be_enc 2 ln else []) ++ rest)) as (F2 & S2 & L2).
+    rewrite be_enc_length in F2, S2, L2. rewrite F2, S2, L2. clear F2 S2 L2.
+    rewrite be_dec_enc by (change (256 ^ N.of_nat 1) with 256; exact Hs).
+    destruct lb.
+    + destruct (split_app (be_enc 2 ln) rest) as (F3 & S3 & L3).
+      rewrite be_enc_length in F3, S3, L3. rewrite F3, S3, L3.
+      rewrite be_dec_enc by (change (256 ^ N.of_nat 2) with 65536; exact Hl). reflexivity.
+    + cbn. subst ln. reflexivity.
+Qed.
+
+Lemma drop_zeros_nz x l : x <> 0 -> drop_zeros (x :: l) = x :: l.
+Proof. intro H. cbn. destruct (x =? 0) eqn:E; [lia|reflexivity]. Qed.
+
+Lemma drop_zeros_repeat k l : drop_zeros (repeat 0 k ++ l) = drop_zeros l.
+Proof. induction k as [|k IH]; cbn; auto. Qed.
+
+Lemma inner_roundtrip body t z : t <> 0 -> inner_unmarshal (inner_marshal body t z) = Some (body, t).
+Proof.
+  intro Ht. unfold inner_unmarshal, inner_marshal.
+  rewrite rev_app_distr. cbn [rev].
+  assert (Hr : rev (repeat 0 z) = repeat 0 z).
+  { induction z as [|z IH]; [reflexivity|]. cbn [repeat rev]. rewrite IH.
+    clear. induction z as [|z IH]; [reflexivity|]. cbn. now rewrite IH. }
+  rewrite Hr. rewrite <- app_assoc. rewrite drop_zeros_repeat.
+  cbn [app]. rewrite drop_zeros_nz by exact Ht. now rewrite rev_involutive.
 Qed.
 
 (* ------------------------------------------------------------------ what a step may change *)
@@ -1398,3 +1472,303 @@ Section Ideal.
     exact (Hno _ Hin Hw).
   Qed.
 End Ideal.
+
+(* ------------------------------------------------------------------ what unprotected records still do; limits of the tolerance *)
+
+
+(* an established DTLS 1.3 receiver: application keys (epoch 3) current, handshake keys (epoch 2) retained *)
+Definition est_state : rstate := mk_rstate 3 (Some 3) [2] [] [] [] [] false false false.
+(* alert(21) {254,253} epoch 0, record number 4138, length 2: fatal(2) internal_error(80) *)
+Definition plain_alert : bytes := [21; 254; 253; 0; 0; 0; 0; 0; 0; 16; 42; 0; 2; 2; 80].
+(* handshake(22) epoch 0 number 4263: KeyUpdate(24) length 1 message_seq 7 fragment 0..1, update_not_requested *)
+Definition plain_keyupdate : bytes :=
+  [22; 254; 253; 0; 0; 0; 0; 0; 0; 16; 167; 0; 13; 24; 0; 0; 1; 0; 7; 0; 0; 0; 0; 0; 1; 0].
+(* ack(26) epoch 0 number 4383 naming record (3, 0) *)
+Definition plain_ack : bytes :=
+  [26; 254; 253; 0; 0; 0; 0; 0; 0; 17; 31; 0; 18; 0; 16; 0; 0; 0; 0; 0; 0; 0; 3; 0; 0; 0; 0; 0; 0; 0; 0].
+
+Theorem unprotected_alert_closes :
+  has_prot est_state = true /\ r_closed est_state = false /\
+  forall snmask aopen hs_room,
+    snd (recv13 snmask aopen hs_room 64 est_state plain_alert) = [OMark 0 4138; OAlertIn 0 4138 2 80; OClosed] /\
+    r_closed (fst (recv13 snmask aopen hs_room 64 est_state plain_alert)) = true.
+Proof. split; [reflexivity|]. split; [reflexivity|]. intros. split; vm_compute; reflexivity. Qed.
+
+(* the ideal statement "once keys exist the endpoint acts only on records the peer sealed" is FALSE of
+   the code: with an AEAD that opens nothing at all (the peer sealed nothing) a 15-byte datagram
+   closes the connection *)
+Theorem acts_only_on_sealed_refuted :
+  ~ (forall snmask aopen hs_room W s d,
+        (forall e q a c, aopen e q a c = None) -> has_prot s = true -> r_closed s = false ->
+        r_closed (fst (recv13 snmask aopen hs_room W s d)) = false).
+Proof.
+  intro H. specialize (H (fun _ _ => 0) (fun _ _ _ _ => None) (fun _ => true) 64%nat est_state plain_alert
+                         (fun _ _ _ _ => eq_refl) eq_refl eq_refl).
+  vm_compute in H. discriminate H.
+Qed.
+
+(* an unprotected handshake record is still pushed to the reassembly buffer and wakes the handshake
+   layer (which, for a KeyUpdate carrying the expected message_seq, answers with a fatal alert) *)
+Theorem unprotected_handshake_accepted :
+  forall snmask aopen, 
+    snd (recv13 snmask aopen (fun _ => true) 64 est_state plain_keyupdate) =
+    [OMark 0 4263; OHs 0 4263 [24; 0; 0; 1; 0; 7; 0; 0; 0; 0; 0; 1; 0]].
+Proof. intros. vm_compute. reflexivity. Qed.
+
+(* an unprotected ACK is discarded without any effect (regression of the repaired defect) *)
+Theorem unprotected_ack_inert_example :
+  forall snmask aopen hs_room,
+    snd (recv13 snmask aopen hs_room 64 est_state plain_ack) = [] /\
+    r_high (fst (recv13 snmask aopen hs_room 64 est_state plain_ack)) = r_high est_state.
+Proof. intros. split; vm_compute; reflexivity. Qed.
+
+(* a record half the record-number range (or more) behind the expected number is never rebuilt
+   correctly, whatever the replay window says *)
+Lemma reconstruct_out_of_range q sbit h : h < 9223372036854775808 ->
+  q + rwin sbit / 2 <= h + 1 -> reconstruct (q mod rwin sbit) sbit h <> q.
+Proof.
+  intros Hh Hq Heq. pose proof (reconstruct_range (q mod rwin sbit) sbit h Hh) as Hr. cbn zeta in Hr.
+  rewrite Heq in Hr. unfold rwin in *. destruct sbit; lia.
+Qed.
+
+(* C06 tolerance ("fewer than the replay window behind the newest => delivered") does NOT hold once
+   the window exceeds half the record-number space of the header form: 2^15 for the 16-bit form the
+   implementation emits, 2^7 for the 8-bit form it accepts.  Concretely: window 256, newest number
+   200, record number 5 (8-bit form) never seen and 195 < 256 behind: the detector would accept it,
+   but the number is rebuilt as 261, the AEAD nonce is wrong, nothing is delivered. *)
+Definition tol_state : rstate :=
+  mk_rstate 3 (Some 3) [2]
+    [(maxseq48, win_init 256); (maxseq64, win_init 256); (maxseq64, win_init 256);
+     (maxseq64, {| latest := 200; mask := true :: repeat false 255 |})]
+    [0; 0; 0; 200] [] [] false false false.
+Definition tol_record : bytes := [39; 5; 0; 16] ++ repeat 0 16.
+Definition tol_open (e q : N) (a c : bytes) : option bytes :=
+  if (e =? 3) && (q =? 5) then Some [104; 105; 23] else None.
+
+Theorem tolerance13_large_window_refuted :
+  (* the peer sealed this record under generation 3 with record number 5 *)
+  tol_open 3 5 [39; 5; 0; 16] (repeat 0 16) = Some [104; 105; 23] /\
+  (* 5 was never accepted and lies inside the replay window of epoch 3 *)
+  check maxseq64 (snd (get_win 256 3 (r_wins tol_state))) 5 = true /\
+  (* yet nothing is delivered and nothing changes *)
+  recv_cipher (fun _ _ => 0) tol_open (fun _ => true) 256 true tol_state tol_record = (tol_state, []).
+Proof. split; [reflexivity|]. split; vm_compute; reflexivity. Qed.
+
+(* ------------------------------------------------------------------ send side *)
+Notation incr_per_epoch := SendSound.incr_per_epoch.
+
+
+
+Lemma nth_set_nth_same' {A} n (x d : A) l : (n < length l)%nat -> nth n (set_nth n x l) d = x.
+Proof. revert n; induction l as [|y l IH]; intros [|n] H; cbn in *; try lia; auto. apply IH. lia. Qed.
+Lemma nth_set_nth_other' {A} n m (x d : A) l : n <> m -> nth m (set_nth n x l) d = nth m l d.
+Proof. revert n m; induction l as [|y l IH]; intros [|n] [|m] H; cbn; auto; try lia. Qed.
+Lemma nth_pad (l : list N) k i : nth i (l ++ repeat 0 k) 0 = nth i l 0.
+Proof.
+  destruct (i <? length l)%nat eqn:E.
+  - apply app_nth1. lia.
+  - rewrite app_nth2 by lia. rewrite (nth_overflow l) by lia.
+    destruct (i - length l <? k)%nat eqn:E2.
+    + clear E. revert E2. generalize (i - length l)%nat as j. induction k as [|k IH]; intros [|j] H; cbn; auto; try lia.
+    + apply nth_overflow. rewrite repeat_length. lia.
+Qed.
+
+Lemma next_seq_spec st e :
+  let st1 := fst (next_seq st e) in
+  get_ctr e (s_ctr st1) = (get_ctr e (s_ctr st) + 1) mod w64 /\
+  (forall e2, e2 <> e -> get_ctr e2 (s_ctr st1) = get_ctr e2 (s_ctr st)) /\
+  snd (next_seq st e) = (if maxseq48 <? get_ctr e (s_ctr st) then None else Some (get_ctr e (s_ctr st))) /\
+  s_wcur st1 = s_wcur st /\ s_wold st1 = s_wold st /\ s_lepoch st1 = s_lepoch st /\ s_cid st1 = s_cid st.
+Proof.
+  unfold next_seq. cbn [fst snd s_ctr s_wcur s_wold s_lepoch s_cid].
+  set (c := s_ctr st ++ repeat 0 (S (N.to_nat e) - length (s_ctr st))).
+  assert (Hl : (N.to_nat e < length c)%nat) by (unfold c; rewrite app_length, repeat_length; lia).
+  assert (Hg : forall e2, get_ctr e2 c = get_ctr e2 (s_ctr st)) by (intro e2; unfold get_ctr, c; apply nth_pad).
+  split; [unfold get_ctr at 1; rewrite nth_set_nth_same' by exact Hl; now rewrite Hg|].
+  split; [intros e2 Hne; unfold get_ctr at 1; rewrite nth_set_nth_other' by lia; apply Hg|].
+  rewrite Hg. auto 10.
+Qed.
+
+Section SendProofs.
+  Variable snmask : N -> bytes -> N.
+  Variable aseal : N -> N -> bytes -> bytes -> bytes.
+  Variable overhead : N.
+  Notation send_record := (send_record snmask aseal overhead).
+  Notation sstep := (sstep snmask aseal overhead).
+  Notation srun := (srun snmask aseal overhead).
+
+  Definition recnum (x : emitted) : N * N := (em_epoch x, em_seq x).
+
+  (* one emission attempt: the counter of that epoch advances by one (mod 2^64), no other counter
+     moves; a record is emitted only with the old counter value, which is then at most 2^48-1 *)
+  Lemma send_record_spec st e t body :
+    let st1 := fst (send_record st e t body) in
+    get_ctr e (s_ctr st1) = (get_ctr e (s_ctr st) + 1) mod w64 /\
+    (forall e2, e2 <> e -> get_ctr e2 (s_ctr st1) = get_ctr e2 (s_ctr st)) /\
+    s_wcur st1 = s_wcur st /\ s_wold st1 = s_wold st /\ s_lepoch st1 = s_lepoch st /\ s_cid st1 = s_cid st /\
+    match snd (send_record st e t body) with
+    | None => True
+    | Some x => em_epoch x = e /\ em_seq x = get_ctr e (s_ctr st) /\ em_seq x <= maxseq48 /\ has_wgen st e = true
+    end.
+  Proof.
+    cbn zeta. unfold Rec13.send_record. pose proof (next_seq_spec st e) as Hn. cbn zeta in Hn.
+    destruct (next_seq st e) as [st1 oq]. cbn [fst snd] in Hn.
+    destruct Hn as (H1 & H2 & H3 & H4 & H5 & H6 & H7). subst oq.
+    destruct (maxseq48 <? get_ctr e (s_ctr st)) eqn:Em; cbn [fst snd]; [auto 10|].
+    assert (Hw : has_wgen st1 e = has_wgen st e) by (unfold has_wgen; now rewrite H4, H5).
+    destruct (negb (has_wgen st1 e)) eqn:Eh; cbn [fst snd]; [auto 10|].
+    destruct (16384 <? len body); cbn [fst snd]; [auto 10|].
+    destruct (16640 <? _); cbn [fst snd]; [auto 10|].
+    destruct (negb (ct_len_ok _)); cbn [fst snd]; [auto 10|].
+    cbn [em_epoch em_seq]. apply negb_false_iff in Eh. rewrite Hw in Eh. repeat split; auto; try lia.
+  Qed.
+
+  (* C09, as coded: a write fails rather than wrap at 2^48 (the counter keeps counting) *)
+  Theorem send_no_wrap st e t body : maxseq48 < get_ctr e (s_ctr st) -> snd (send_record st e t body) = None.
+  Proof.
+    intro H. unfold Rec13.send_record. pose proof (next_seq_spec st e) as Hn. cbn zeta in Hn.
+    destruct (next_seq st e) as [st1 oq]. cbn [fst snd] in Hn. destruct Hn as (_ & _ & -> & _).
+    assert (Hm : maxseq48 <? get_ctr e (s_ctr st) = true) by lia. now rewrite Hm.
+  Qed.
+
+  (* history invariant: every emitted number is below its epoch's counter, counters are bounded by the
+     number of emission attempts so far *)
+  Definition SI (st : sstate) (l : list (N * N)) (k : N) : Prop :=
+    (forall e n, In (e, n) l -> n < get_ctr e (s_ctr st) /\ n <= maxseq48) /\
+    (forall e, get_ctr e (s_ctr st) <= k) /\ incr_per_epoch l.
+
+  Lemma sstep_inv st l k o : SI st l k -> k + 1 < w64 ->
+    SI (fst (sstep st o)) (l ++ map recnum (snd (sstep st o))) (k + 1).
+  Proof.
+    intros (Hb & Hk & Hi) Hkw.
+    assert (Hsend : forall e t body,
+      SI (fst (send_record st e t body))
+         (l ++ map recnum (match snd (send_record st e t body) with Some x => [x] | None => [] end)) (k + 1)).
+    { intros e t body. pose proof (send_record_spec st e t body) as Hs. cbn zeta in Hs.
+      destruct (send_record st e t body) as [st1 r]. cbn [fst snd] in *.
+      destruct Hs as (H1 & H2 & _ & _ & _ & _ & Hr).
+      assert (Hnw : get_ctr e (s_ctr st1) = get_ctr e (s_ctr st) + 1).
+      { rewrite H1. apply N.mod_small. specialize (Hk e). lia. }
+      assert (Hmono : forall e2, get_ctr e2 (s_ctr st) <= get_ctr e2 (s_ctr st1) /\ get_ctr e2 (s_ctr st1) <= k + 1).
+      { intro e2. destruct (N.eq_dec e2 e) as [-> | Hne]; [specialize (Hk e); lia|]. rewrite (H2 e2 Hne). specialize (Hk e2). lia. }
+      split; [|split; [intro e2; apply Hmono|]].
+      - intros e2 n Hin. apply in_app_or in Hin. destruct Hin as [Hin | Hin].
+        + destruct (Hb e2 n Hin) as [Ha Hc]. split; [|exact Hc]. destruct (Hmono e2). lia.
+        + destruct r as [x|]; [|destruct Hin]. destruct Hin as [Hin | []]. unfold recnum in Hin.
+          inversion Hin as [[He2 Hn2]]. destruct Hr as (Hre & Hq & Hle & _).
+          rewrite Hre. rewrite Hq in *. split; [lia|exact Hle].
+      - apply SendSound.incr_app; [exact Hi| |].
+        + destruct r as [x|]; cbn; auto. split; [intros m []|exact I].
+        + intros e2 n m Hn Hm. destruct r as [x|]; [|destruct Hm]. destruct Hm as [Hm | []].
+          unfold recnum in Hm. inversion Hm as [[He2 Hm2]]. destruct Hr as (Hre & Hq & _).
+          rewrite Hq. rewrite <- He2, Hre in Hn. now destruct (Hb _ _ Hn). }
+    destruct o as [t body | e t body | e | e | ]; cbn [Rec13.sstep].
+    - specialize (Hsend (s_lepoch st) t body). destruct (send_record st (s_lepoch st) t body) as [st1 r]. exact Hsend.
+    - specialize (Hsend e t body). destruct (send_record st e t body) as [st1 r]. exact Hsend.
+    - cbn [fst snd map]. rewrite app_nil_r. unfold SI, install_write. cbn [s_ctr].
+      split; [exact Hb|]. split; [intro e2; specialize (Hk e2); lia|exact Hi].
+    - cbn [fst snd map]. rewrite app_nil_r. unfold SI. cbn [s_ctr].
+      split; [exact Hb|]. split; [intro e2; specialize (Hk e2); lia|exact Hi].
+    - assert (Hsame : SI st (l ++ []) (k + 1)).
+      { rewrite app_nil_r. split; [exact Hb|]. split; [intro e2; specialize (Hk e2); lia|exact Hi]. }
+      destruct (s_wcur st) as [c|]; [|exact Hsame].
+      destruct ((c =? 65535) || negb (c =? s_lepoch st)); [exact Hsame|].
+      cbn [fst snd map]. unfold SI, install_write in *. cbn [s_ctr]. exact Hsame.
+  Qed.
+
+  Lemma srun_inv : forall ops st l k, SI st l k -> k + N.of_nat (length ops) < w64 ->
+    SI (fst (srun st ops)) (l ++ map recnum (snd (srun st ops))) (k + N.of_nat (length ops)).
+  Proof.
+    induction ops as [|o ops IH]; intros st l k HS Hk.
+    - cbn. rewrite app_nil_r. replace (k + 0) with k by lia. exact HS.
+    - cbn [Rec13.srun]. assert (Hk1 : k + 1 < w64) by (cbn [length] in Hk; lia).
+      pose proof (sstep_inv st l k o HS Hk1) as H1.
+      destruct (sstep st o) as [st1 l1]. cbn [fst snd] in H1.
+      assert (Hk2 : k + 1 + N.of_nat (length ops) < w64) by (cbn [length] in Hk; lia).
+      specialize (IH st1 _ (k + 1) H1 Hk2).
+      destruct (srun st1 ops) as [st2 l2]. cbn [fst snd] in *.
+      rewrite map_app, app_assoc. replace (k + N.of_nat (length (o :: ops))) with (k + 1 + N.of_nat (length ops)) by (cbn [length]; lia).
+      exact IH.
+  Qed.
+
+  (* C09 for DTLS 1.3: over every history of emission attempts (application data, alerts, ACKs,
+     handshake fragments and retransmissions at any epoch, key installations, local KeyUpdate
+     commits) the (epoch, record number) pairs of the emitted records are pairwise distinct, strictly
+     increasing within each epoch in emission order, and at most 2^48-1 *)
+  Theorem send_unique cid ops : N.of_nat (length ops) < w64 ->
+    let l := map recnum (snd (srun (sinit cid) ops)) in
+    NoDup l /\ incr_per_epoch l /\ (forall e n, In (e, n) l -> n <= maxseq48).
+  Proof.
+    intro Hk. cbn zeta.
+    assert (H0 : SI (sinit cid) [] 0).
+    { split; [intros e n []|]. split; [|exact I]. intro e. unfold get_ctr. cbn. destruct (N.to_nat e); cbn; lia. }
+    pose proof (srun_inv ops (sinit cid) [] 0 H0) as H. cbn [app] in H. specialize (H ltac:(lia)).
+    destruct H as (Hb & _ & Hi). split; [now apply SendSound.incr_nodup|]. split; [exact Hi|].
+    intros e n Hin. now destruct (Hb e n Hin).
+  Qed.
+
+  (* (key, nonce) uniqueness: distinct generations have distinct keys (premise), the nonce is the IV
+     of the generation XOR the 64-bit record number *)
+  Lemma xor_bytes_inj a b1 b2 : length b1 = length a -> length b2 = length a ->
+    xor_bytes a b1 = xor_bytes a b2 -> b1 = b2.
+  Proof.
+    revert b1 b2; induction a as [|x a IH]; intros [|y1 b1] [|y2 b2] H1 H2 H; cbn in *; try lia; auto.
+    inversion H. f_equal; [|apply IH; auto; lia].
+    assert (N.lxor x (N.lxor x y1) = N.lxor x (N.lxor x y2)) by congruence.
+    now rewrite <- !N.lxor_assoc, !N.lxor_nilpotent, !N.lxor_0_l in H0.
+  Qed.
+
+  Lemma nonce13_inj iv q1 q2 : length iv = 12%nat -> q1 < w64 -> q2 < w64 ->
+    nonce13 iv q1 = nonce13 iv q2 -> q1 = q2.
+  Proof.
+    intros Hl H1 H2 H. unfold nonce13 in H. apply app_inv_head in H.
+    apply xor_bytes_inj in H; try (rewrite be_enc_length, skipn_length; lia).
+    assert (Hd : be_dec (be_enc 8 q1) = be_dec (be_enc 8 q2)) by congruence.
+    rewrite !be_dec_enc in Hd; auto; change (256 ^ N.of_nat 8) with w64; assumption.
+  Qed.
+
+  Theorem key_nonce_unique {K : Type} (key_of : N -> K) (iv_of : N -> bytes) cid ops :
+    (forall e e', key_of e = key_of e' -> e = e') -> (forall e, length (iv_of e) = 12%nat) ->
+    N.of_nat (length ops) < w64 ->
+    NoDup (map (fun x => (key_of (em_epoch x), nonce13 (iv_of (em_epoch x)) (em_seq x))) (snd (srun (sinit cid) ops))).
+  Proof.
+    intros Hkey Hiv Hk. destruct (send_unique cid ops Hk) as (Hnd & _ & Hmax).
+    set (l := snd (srun (sinit cid) ops)) in *.
+    assert (Hinj : forall x y, In x l -> In y l ->
+       (key_of (em_epoch x), nonce13 (iv_of (em_epoch x)) (em_seq x)) = (key_of (em_epoch y), nonce13 (iv_of (em_epoch y)) (em_seq y)) ->
+       recnum x = recnum y).
+    { intros x y Hx Hy Heq. inversion Heq as [[Hk1 Hn1]]. apply Hkey in Hk1. unfold recnum. rewrite Hk1 in *.
+      f_equal. apply (nonce13_inj (iv_of (em_epoch y))); auto.
+      - specialize (Hmax (em_epoch x) (em_seq x)). unfold maxseq48, w64 in *.
+        assert (In (em_epoch x, em_seq x) (map recnum l)) by (apply in_map_iff; exists x; auto). specialize (Hmax H). lia.
+      - specialize (Hmax (em_epoch y) (em_seq y)). unfold maxseq48, w64 in *.
+        assert (In (em_epoch y, em_seq y) (map recnum l)) by (apply in_map_iff; exists y; auto). specialize (Hmax H). lia. }
+    clear Hmax. induction l as [|x l IH]; [constructor|].
+    cbn [map] in *. inversion Hnd as [|? ? Hx Hl]; subst. constructor.
+    - intro Hin. apply in_map_iff in Hin. destruct Hin as (y & Heq & Hy).
+      apply Hx. apply in_map_iff. exists y. split; [|exact Hy].
+      symmetry. apply Hinj; [now left|now right|]. now symmetry.
+    - apply IH; [exact Hl|]. intros a b Ha Hb. apply Hinj; now right.
+  Qed.
+
+  (* epochs are never reused: a local KeyUpdate commit moves to the next epoch, keeps the previous
+     generation for retransmissions only, and never reinstalls an epoch below the current one *)
+  Theorem commit_next_epoch st c : s_wcur st = Some c -> c = s_lepoch st -> c <> 65535 ->
+    let st1 := fst (sstep st SCommitKeyUpdate) in
+    s_wcur st1 = Some (c + 1) /\ s_lepoch st1 = c + 1 /\ has_wgen st1 c = true /\ s_ctr st1 = s_ctr st.
+  Proof.
+    intros Hc He Hn. cbn [Rec13.sstep]. rewrite Hc.
+    assert (H1 : (c =? 65535) || negb (c =? s_lepoch st) = false) by (subst; rewrite N.eqb_refl; cbn; lia).
+    rewrite H1. cbn [fst]. unfold install_write. rewrite Hc. cbn [s_wcur s_lepoch s_ctr].
+    split; [reflexivity|]. split; [reflexivity|]. split; [|reflexivity].
+    unfold has_wgen. cbn [s_wcur s_wold].
+    assert (H2 : c + 1 =? c = false) by lia. rewrite H2. cbn [orb].
+    destruct ((c =? c + 1) || mem_N c (s_wold st)) eqn:E.
+    - apply orb_true_iff in E. destruct E as [E | E]; [lia|exact E].
+    - unfold mem_N. rewrite existsb_app. cbn. rewrite N.eqb_refl. cbn. apply orb_true_r.
+  Qed.
+
+  (* at epoch 65535 the commit is refused (ErrEpochOverflow): the epoch never wraps *)
+  Theorem commit_no_epoch_wrap st : s_wcur st = Some 65535 -> sstep st SCommitKeyUpdate = (st, []).
+  Proof. intro H. cbn [Rec13.sstep]. rewrite H. reflexivity. Qed.
+End SendProofs.
